@@ -70,6 +70,13 @@ _reg("C13", "xsim.manager.props", "C13", "exploration", {"quick": 4800, "thoroug
      "one case = seeded acyclic expression history with 1-4 gen_fun calls at random positions (1-3 graph-leaf arguments, generated "
      "values); the subject calls the generated function, a twin manager with the same history assigns through set_value; the "
      "mk_fun source is checked line by line; distinct = distinct case digest; non-trivial = at least one generated function was called")
+_reg("C20", "xsim.manager.props", "C20", "exploration", {"quick": 2400, "thorough": 40000}, {"quick": 150, "thorough": 500},
+     ("pure", "compiled"), COMPONENTS_MANAGER,
+     "one case = one seeded program (history with fixed names + 0-2 assignments that make Python raise) executed in N fresh "
+     "interpreters: {compiled, pure} x hash seeds (quick 2x2, thorough 2x8); the per-op transcript (exception type, canonical "
+     "contents, sorted definitions, dump() in its own order) must have the same digest in all of them; evaluations = program "
+     "executions; distinct = distinct programs; non-trivial = the program had at least one update that triggered a task")
+REG["C20"]["cross"] = {"quick": 2, "thorough": 8}      # hash seeds per build
 
 
 def driver_for(prop):
@@ -158,4 +165,14 @@ MANIFEST_TEXT = {
              "manager's trigger set. Zero-division cases are skipped (the property's proviso)",
         design_ref="DESIGN.md 5 (C13)", note=_TB,
         technique="deterministic simulation: twin execution of generated code vs manager under seeded histories/schedules"),
+    "C20": dict(
+        text="each seeded program of manager operations (fixed names; histories as in C01/C03 plus assignments that make Python "
+             "raise) is executed in fresh interpreters under {Cython-compiled from the working tree, pure Python} x several "
+             "PYTHONHASHSEEDs; the parent compares the per-op transcript digests (exception type, canonical contents, sorted "
+             "definitions, dump() text in its own order); a mismatch is confirmed in fresh interpreters, minimised across "
+             "processes and written as a replay naming both configurations. Transcripts end at the first update whose triggered "
+             "public task graph is cyclic (KF-1, decided by the model, hence identically in every configuration)",
+        design_ref="DESIGN.md 5 (C20), 3.7", note=_TB + "; float zeros compare equal regardless of sign (Cython's float*int fast path "
+                   "returns 0.0 for 0.0 * -3 where the interpreter returns -0.0)",
+        technique="deterministic simulation: same seeded program across build x hash-seed configurations, transcript diff"),
 }
